@@ -213,6 +213,20 @@ func (f *frame) storeAt(p Val, t types.Type, val string, st *hstate) *hstate {
 	return vc.store(st, hn, hs, sx("store", vc.lookup(st, hn, hs), p.t, val))
 }
 
+// havocTo replaces the current state by a havoc of `from` and keeps the facts every havoc preserves:
+// allocation only grows, closed channels stay closed.
+func (f *frame) havocTo(from *hstate, names map[string]bool) {
+	vc := f.vc
+	f.st = vc.havoc(from, names)
+	if names["*"] || names["alloc"] {
+		a0 := vc.lookup(from, "alloc", allocSort)
+		a1 := vc.lookup(f.st, "alloc", allocSort)
+		if a0 != a1 {
+			f.assume(fmt.Sprintf("(forall ((r Int)) (! (=> (select %s r) (select %s r)) :pattern ((select %s r))))", a0, a1, a1))
+		}
+	}
+}
+
 // allocRef allocates a fresh base reference.
 func (f *frame) allocRef(hint string) string {
 	vc := f.vc
@@ -544,7 +558,7 @@ func (f *frame) enterLoop(li *loopInfo, predIdx []int, conds []string) {
 	}
 	// havoc
 	mods := f.modsInLoop(li)
-	f.st = vc.havoc(f.st, mods)
+	f.havocTo(f.st, mods)
 	li.headSt = f.st
 	cur := map[*ssa.Phi]string{}
 	for _, phi := range phis {
